@@ -18,7 +18,7 @@ type Layout struct {
 	HexSpaces bool // white space between the bytes of hex strings
 	BlockLine bool // all entries of a block on one line
 	UseFirst  bool // "/X usecmap" right after begincmap (default: after the header definitions)
-	HeaderEnd bool // header definitions after the blocks instead of before them
+	HeaderEnd bool // header definitions (and, unless UseFirst, usecmap) after the blocks instead of before them
 }
 
 const (
@@ -254,7 +254,7 @@ func (w *tokWriter) cmap(m CMap) {
 	if !w.l.HeaderEnd {
 		w.header(m)
 	}
-	if !w.l.UseFirst {
+	if !w.l.UseFirst && !w.l.HeaderEnd {
 		use()
 	}
 	for _, b := range m.Blocks {
@@ -262,6 +262,9 @@ func (w *tokWriter) cmap(m CMap) {
 	}
 	if w.l.HeaderEnd {
 		w.header(m)
+		if !w.l.UseFirst {
+			use() // behind the header definitions also when they follow the blocks: usecmap after every block
+		}
 	}
 	w.line(false, "endcmap")
 	if m.ExtraEndCMap {
